@@ -84,7 +84,7 @@ func c07Eval(r *hx.Run, cs c07Case) {
 		drop := false
 		if br.Reporter == cs.Reporter {
 			switch cs.Form {
-			case "disable", "snooze-future":
+			case "disable", "snooze-future", "snooze-future-2sp", "snooze-future-tab":
 				drop = br.RuleName == cs.RuleName && br.RuleFirst == cs.RuleLine && !(cs.Locked && c07Configurable[cs.Reporter])
 			case "file/disable", "file/snooze-future":
 				drop = true
@@ -172,13 +172,22 @@ func runC07(r *hx.Run, replay string) {
 			}
 			r.Count("with-enable-block")
 		}
-		form := hx.Pick(rr, []string{"disable", "disable", "snooze-future", "snooze-past", "file/disable", "file/snooze-future", "file/snooze-past"})
+		form := hx.Pick(rr, []string{"disable", "disable", "snooze-future", "snooze-past", "file/disable", "file/snooze-future", "file/snooze-past",
+			"snooze-future-2sp", "snooze-future-tab", "junk-disable", "junk-file-disable"})
 		var text string
 		switch form {
 		case "disable":
 			text = "# pint disable " + target.Reporter
 		case "snooze-future":
 			text = "# pint snooze 2099-01-01 " + target.Reporter
+		case "snooze-future-2sp": // any amount of whitespace separates the time from the check
+			text = "# pint snooze 2099-01-01  " + target.Reporter
+		case "snooze-future-tab":
+			text = "# pint snooze 2099-01-01\t" + target.Reporter
+		case "junk-disable": // not a control comment: nothing may change
+			text = "# pint " + hx.Pick(rr, []string{"dis4able", "di.sable", "disa_ble", "d?isable", "disable="}) + " " + target.Reporter
+		case "junk-file-disable":
+			text = "# pint " + hx.Pick(rr, []string{"file/dis4able", "file/d.i.s.a.b.l.e", "fi1e/disable"}) + " " + target.Reporter
 		case "snooze-past":
 			text = "# pint snooze 2000-01-01 " + target.Reporter
 		case "file/disable":
